@@ -20,8 +20,8 @@ MANIFEST = dict(
     note="Middlewares / handlers are well-behaved recorders (they do not raise). Handler tables are built with a dict comprehension (a dict literal with symbolic keys would be realised by CrossHair).",
 )
 BOUNDS = {
-    'quick': {'stacks': 'all 21 stacks of length 0..2', 'tables': '7 kinds, keys symbolic', 'requests': '13 kinds', 'dispatchers': 'sync, async'},
-    'thorough': {'stacks': 'all 85 stacks of length 0..3', 'tables': '7 kinds', 'requests': '13 kinds', 'dispatchers': 'sync, async'},
+    'quick': {'stacks': 'all 21 stacks of length 0..2', 'tables': '7 kinds, keys symbolic', 'requests': '14 kinds', 'dispatchers': 'sync, async'},
+    'thorough': {'stacks': 'all 85 stacks of length 0..3', 'tables': '7 kinds', 'requests': '14 kinds', 'dispatchers': 'sync, async'},
 }
 STUBS = ['S1', 'S4', 'S5', 'S8', 'S13']
 OUTSIDE = ['middlewares / handlers that raise', 'stacks deeper than the bound']
@@ -30,7 +30,7 @@ BUDGET = {'quick': 40.0, 'thorough': 120.0}
 
 MW_KINDS = ('P', 'S', 'Q', 'W')
 TABLES = ('none', 'generic', 'percode', 'both', 'two', 'replace_generic', 'replace_percode')
-REQS = ('ok', 'unknown', 'nobind', 'perr', 'boom', 'internal', 'notif_ok', 'notif_perr', 'batch', 'notif_batch', 'mixed_batch', 'rejected', 'rejected_batch')
+REQS = ('ok', 'unknown', 'nobind', 'perr', 'boom', 'internal', 'notif_ok', 'notif_perr', 'batch', 'notif_batch', 'mixed_batch', 'batch_2fail', 'rejected', 'rejected_batch')
 
 
 def setup():
@@ -207,6 +207,11 @@ def h_chain(ob):
         elif req == 'mixed_batch':
             elems = [('perr', None), ('ok', rid)]
             doc = [el('perr', None), el('ok', rid)]
+        elif req == 'batch_2fail':
+            rid2 = env.int('rid2')
+            env.assume(rid2 != rid)
+            elems = [('perr', rid), ('perr', rid2)]
+            doc = [el('perr', rid), el('perr', rid2)]
         elif req == 'rejected':
             elems, doc = [], env.int('x')
         else:
@@ -283,7 +288,7 @@ def h_chain(ob):
             return ['nothing']
         if out is None:
             raise Violation('response-expected-but-nothing-sent', want_resps)
-        docs = out[0] if req in ('batch', 'notif_batch', 'mixed_batch') else [out[0]]
+        docs = out[0] if req in ('batch', 'notif_batch', 'mixed_batch', 'batch_2fail') else [out[0]]
         if not isinstance(docs, list) or len(docs) != len(want_resps):
             raise Violation('sent-shape', (out[0], len(want_resps)))
         for d, (id_, (tag, val)) in zip(docs, want_resps):
